@@ -9,6 +9,7 @@ git -C /repo diff HEAD | git -C "$WT" apply 2>/dev/null
 if ! git -C "$WT" apply --3way "$PATCH" 2>/dev/null; then echo "PATCH DOES NOT APPLY"; git -C /repo worktree remove --force "$WT"; exit 9; fi
 PYVC_REPO="$WT" PYVC_EVIDENCE_DIR="$WT/.evidence" python3-vt /verif/check.py "$PID" --tier "$TIER"
 RC=$?
+[ -n "${KEEP_EVIDENCE:-}" ] && cp -r "$WT/.evidence" "$KEEP_EVIDENCE"
 git -C /repo worktree remove --force "$WT"
 echo "exit=$RC"
 exit $RC
